@@ -41,7 +41,7 @@ CLAIMED = {
         "note": "Partial: necessary conditions U1-U18 (19 rules).",
     },
     "C09": {
-        "technique": "symbolic evaluation of the precedence/associativity tables into the full 13x13 relation and comparison with the documented grammar; round-trip cross-checks of sibling spelling tables (lexer bytes, Token Display, keywords, Token->BinOp, suffix names); dominance order of the token recognisers; byte/char unit taint in the lexer; finite-domain evaluation (vf/symex.py) of the escape state machines of the string/char scanners over all (state, character class) pairs; literal-only brace collapse in f-strings; must-pass-through of an XID_Continue scan on every path to the identifier token cut; cursor monotonicity of the lexer (Lexer::input only computed from the current input)",
+        "technique": "symbolic evaluation of the precedence/associativity tables into the full 13x13 relation and comparison with the documented grammar; round-trip cross-checks of sibling spelling tables (lexer bytes, Token Display, keywords, Token->BinOp, suffix names); dominance order of the token recognisers; byte/char unit taint in the lexer; finite-domain evaluation (vf/symex.py) of the escape state machines of the string/char scanners over all (state, character class) pairs; literal-only brace collapse in f-strings; must-pass-through of an XID_Continue scan on every path to the identifier token cut; cursor monotonicity of the lexer (Lexer::input only computed from the current input); forward data-flow: no numeric cast between digit conversion and the Literal aggregate",
         "level": "Decides the grouping relation for every ordered pair of binary operators and the agreement of all spelling tables; the value denoted by each literal spelling (escapes, number parsing) is NOT decided.",
         "note": "Partial: necessary conditions P1-P14 (14 rules).",
     },
@@ -61,12 +61,12 @@ CLAIMED = {
         "note": "Partial: clauses K1-K5.",
     },
     "C07": {
-        "technique": "per-arm HIR checks of the type checker's expression and operator tables (expected-type use, documented fixed types, operand contexts), MIR def-use error discipline over every TypeResult-returning call in typechecker::*, call-graph liveness of every diagnostic constructor, guard-before-use checks for the rule-specific tests; crate-wide search: resolved names are never compared by their bare identifier; sibling table of item contexts (constants and tests carry no function return type), by literal, helper or evaluation",
+        "technique": "per-arm HIR checks of the type checker's expression and operator tables (expected-type use, documented fixed types, operand contexts), MIR def-use error discipline over every TypeResult-returning call in typechecker::*, call-graph liveness of every diagnostic constructor, guard-before-use checks for the rule-specific tests; crate-wide search: resolved names are never compared by their bare identifier; sibling table of item contexts (constants and tests carry no function return type), by literal, helper or evaluation; value-flow of the right operand's divergence in the short-circuit operator group (used for its error only)",
         "level": "Decides necessary conditions E1-E14 over all 20 expression arms, 7 operator groups, ~320 result-returning call sites and 27 diagnostics; soundness of inference for all programs is not decided.",
         "note": "Partial: necessary conditions E1-E14 (14 rules).",
     },
     "C08": {
-        "technique": "ordered-call-event dominance on the MIR of every lowering method with argument-origin tracing (which sub-expression a visit call visits), iterator-chain inspection for reverse traversal, Value::BinOp operand wiring, truncation arithmetic in dead-code elimination; branch selection of generated Switch code by equality with the branch index (shared C01.T9); evaluated compound assignment (target read before the right-hand side is lowered)",
+        "technique": "ordered-call-event dominance on the MIR of every lowering method with argument-origin tracing (which sub-expression a visit call visits), iterator-chain inspection for reverse traversal, Value::BinOp operand wiring, truncation arithmetic in dead-code elimination; branch selection of generated Switch code by equality with the branch index (shared C01.T9); evaluated compound assignment (target read before the right-hand side is lowered); must-pass-through of the lowering of every always-evaluated operand, with excuses only behind an inspection of that operand",
         "level": "Decides the visit order of the MIR lowerer (which fixes evaluation order) for all constructs named in the property; the emitted call sequence of every program is not decided.",
         "note": "Partial: necessary conditions O1-O9 (9 rules).",
     },
@@ -81,22 +81,22 @@ CLAIMED = {
         "note": "Partial: necessary conditions D1-D7 (7 rules).",
     },
     "C19": {
-        "technique": "HIR table extraction of the exit-code and verdict tables, MIR def-use error discipline over every fallible step of cli_inner, counting/aggregation shape of run_tests, cross-site agreement of the test-name prefix literal (incl. format_args pieces) and its lexical unspellability; all-definitions check of the symbol-table key in get_function (package prefix on every path); no test block dropped from the compilation order (shared C14.D6); leftover-input verdict of run_parser decided on the lexer, not on the parser's lookahead",
+        "technique": "HIR table extraction of the exit-code and verdict tables, MIR def-use error discipline over every fallible step of cli_inner, counting/aggregation shape of run_tests, cross-site agreement of the test-name prefix literal (incl. format_args pieces) and its lexical unspellability; all-definitions check of the symbol-table key in get_function (package prefix on every path); no test block dropped from the compilation order (shared C14.D6); leftover-input verdict of run_parser decided on the lexer, not on the parser's lookahead; control-dependence of module-file reads on file-type tests in the directory walk (name decides, not is_file)",
         "level": "Decides the small table-like clauses X1-X8 exhaustively (all arms, all call sites); what a particular script's tests do is not decided.",
         "note": "Partial: necessary conditions X1-X8 (8 rules).",
     },
     "C13": {
-        "technique": "dominance/ordering of the lookups in resolve_name on MIR (declarations < recurse test < imports < parent, hit returns early), HIR checks of the path walker's loop-carried state, ADT/derive table of the name key, must-pass-through in imports(), cross-site agreement of discovery and export literals; path rule 'flag false after every further segment fetch' (segments after super); index-provenance rule for the module tree (child index = position of the child's own push, through helper returns); error discipline of module discovery (a failed source read has no successful exit); push/restore pairing of shared prefix stacks on every path of nested-list walks (search rule with canary); iterator-chain scope walks evaluated as loops",
+        "technique": "dominance/ordering of the lookups in resolve_name on MIR (declarations < recurse test < imports < parent, hit returns early), HIR checks of the path walker's loop-carried state, ADT/derive table of the name key, must-pass-through in imports(), cross-site agreement of discovery and export literals; path rule 'flag false after every further segment fetch' (segments after super); index-provenance rule for the module tree (child index = position of the child's own push, through helper returns); error discipline of module discovery (a failed source read has no successful exit); push/restore pairing of shared prefix stacks on every path of nested-list walks (search rule with canary); iterator-chain scope walks evaluated as loops; accumulator feedback of the registered use-path walk (shared C18.I1)",
         "level": "Decides the lookup order and path-walking rules stated by the property as structural facts of the two functions that implement them, plus key identity and literal agreement; what each reference resolves to in a given tree is not decided.",
         "note": "Partial: necessary conditions R1-R14 (14 rules).",
     },
     "C02": {
-        "technique": "sibling agreement of all LayoutBuilder walks (context classified from resolved HIR patterns, seeding and traversal order read from MIR), direction checks of the clone plumbing by argument-origin tracing, ADT shape / derive table for the shared and immutable types; partial evaluation of the LIR lowering of constant / context reads (clone from the value's own address on the reading path, no aliasing, no remembered loads); default-branch decision of the match lowering on distinct variants (shared C05.A12); tag-width bound: the definition of a declared enum refuses more variants than the one-byte tag distinguishes (constant and edge of the guarding comparison evaluated)",
+        "technique": "sibling agreement of all LayoutBuilder walks (context classified from resolved HIR patterns, seeding and traversal order read from MIR), direction checks of the clone plumbing by argument-origin tracing, ADT shape / derive table for the shared and immutable types; partial evaluation of the LIR lowering of constant / context reads (clone from the value's own address on the reading path, no aliasing, no remembered loads); default-branch decision of the match lowering on distinct variants (shared C05.A12); tag-width bound: the definition of a declared enum refuses more variants than the one-byte tag distinguishes (constant and edge of the guarding comparison evaluated); examinee-copied-before-dispatch of the match lowering (shared C03.F17)",
         "level": "Decides offset-table agreement between the independent layout walks and the aliasing structure of lists vs values; value semantics and exact addressing of generated code for all programs are not decided.",
         "note": "Partial: necessary conditions L1-L11 (11 rules).",
     },
     "C05": {
-        "technique": "cross-table agreement with rustc as oracle: ADT repr/variant-order facts, rustc layout_of answers exported per Rust type vs the crate's own Primitive::layout table, associated-type table (AsParam/Transformed) vs the pool's reference-type table, statement-order checks of hidden-parameter assembly, fn-pointer type strings of the ABI adapters; per-IrType-variant forward dataflow of the AbiParam extension (uext/sext) over every parameter pushed onto a signature declared with Linkage::Import, through the helpers that build it; generic-argument audit of Layout::new / size_of / extern_clone|drop|eq instances in the typed list API (boundary representation); default-branch decision of the match lowering on distinct variants (shared C02.L10)",
+        "technique": "cross-table agreement with rustc as oracle: ADT repr/variant-order facts, rustc layout_of answers exported per Rust type vs the crate's own Primitive::layout table, associated-type table (AsParam/Transformed) vs the pool's reference-type table, statement-order checks of hidden-parameter assembly, fn-pointer type strings of the ABI adapters; per-IrType-variant forward dataflow of the AbiParam extension (uext/sext) over every parameter pushed onto a signature declared with Linkage::Import, through the helpers that build it; generic-argument audit of Layout::new / size_of / extern_clone|drop|eq instances in the typed list API (boundary representation); default-branch decision of the match lowering on distinct variants (shared C02.L10); dominance of every memcpy in the generated clone bodies by the recursive needs_clone predicate (or the leaf arm)",
         "level": "Decides agreement of every table both sides of the boundary derive layout, tags and passing convention from (all mirror enums, all 16 primitive rows, all 28 Value impls, all producers/consumers of the hidden parameters); equality of arbitrary values across the ABI of generated code is not decided.",
         "note": "Partial: necessary conditions A1-A12 (12 rules); context field offsets (proc-macro template) not decided.",
     },
